@@ -3,17 +3,22 @@ package c16
 
 import (
 	"fmt"
+	"io"
 	"math"
 	"net"
+	"os"
+	"path/filepath"
 	"regexp"
 	"runtime"
 	"strings"
 	"sync"
+	"sync/atomic"
 	"testing"
 	"time"
 
 	"github.com/lianxiangcloud/linkchain/consensus"
 	cstypes "github.com/lianxiangcloud/linkchain/consensus/types"
+	auto "github.com/lianxiangcloud/linkchain/libs/autofile"
 	"github.com/lianxiangcloud/linkchain/libs/common"
 	cmn "github.com/lianxiangcloud/linkchain/libs/common"
 	"github.com/lianxiangcloud/linkchain/libs/crypto"
@@ -155,6 +160,11 @@ type wire struct {
 	bytes []byte
 }
 
+// maxWire is consensus.maxMsgSize: what the connection layer hands to the reactor at most.
+const maxWire = 1048576
+
+var walCtr int64
+
 var ints = []int{-1, 0, 1, 2, 3, 7, 100, 1 << 20, 1 << 27, math.MaxInt32, math.MinInt32}
 
 func genInt(t *rapid.T, around int, label string) int {
@@ -237,7 +247,7 @@ func enc(m consensus.ConsensusMessage) []byte {
 // genHostile draws one message a single peer sends.  signer >= 0 means the peer holds that validator's key.
 func genHostile(t *rapid.T, n *consim.Net, nd *consim.Node, signer int, pstate *consensus.PeerState, prefer string) *hostile {
 	rs := nd.CS.GetRoundState()
-	kinds := []string{"bytes", "newroundstep", "commitstep", "proposal", "proposalpol", "blockpart", "blockpart", "vote", "vote", "vote", "hasvote", "maj23", "votesetbits", "heartbeat", "mutated-valid", "forged-vote", "forged-vote", "forged-proposal", "forged-part", "nrs-aligned", "nrs-aligned", "commitstep-aligned", "pol-setup"}
+	kinds := []string{"bytes", "newroundstep", "commitstep", "proposal", "proposalpol", "blockpart", "blockpart", "vote", "vote", "vote", "hasvote", "maj23", "votesetbits", "heartbeat", "mutated-valid", "forged-vote", "forged-vote", "forged-proposal", "forged-part", "nrs-aligned", "nrs-aligned", "commitstep-aligned", "pol-setup", "near-limit-part"}
 	if signer >= 0 && string(rs.Validators.GetProposer().Address) == string(n.Vals[signer].Addr) && rs.Proposal == nil {
 		kinds = append(kinds, "p-header", "p-header", "p-header", "p-block", "p-block", "p-block", "p-block")
 	}
@@ -452,6 +462,27 @@ func genHostile(t *rapid.T, n *consim.Net, nd *consim.Node, signer int, pstate *
 		for i := 0; i < ps.Total(); i++ {
 			h.more = append(h.more, wire{consensus.DataChannel, enc(&consensus.BlockPartMessage{Height: rs.Height, Round: rs.Round, Part: ps.GetPart(i)})})
 		}
+	case "near-limit-part":
+		// the largest messages the connection layer lets through (RecvMessageCapacity = 1 MiB): a block part of any height
+		// with that much garbage.  No key is needed.  The node logs it before it looks at it.
+		h.ch = consensus.DataChannel
+		part := &types.Part{Index: genInt(t, 0, "idx"), Bytes: nil}
+		msg := &consensus.BlockPartMessage{Height: genHeight(t, rs.Height, "h"), Round: genInt(t, rs.Round, "r"), Part: part}
+		overhead := len(enc(msg))
+		target := maxWire - rapid.SampledFrom([]int{0, 0, 1, 2, 8, 16, 32, 40, 47, 48, 64, 128, 1024}).Draw(t, "below")
+		part.Bytes = make([]byte, target-overhead-8)
+		// the length prefixes grow with the payload: adjust to hit the target exactly
+		for i := 0; i < 4; i++ {
+			if d := target - len(enc(msg)); d != 0 && len(part.Bytes)+d > 0 {
+				part.Bytes = make([]byte, len(part.Bytes)+d)
+			}
+		}
+		h.bytes = enc(msg)
+		if len(h.bytes) > maxWire {
+			return nil
+		}
+		h.legit = false
+		h.desc = fmt.Sprintf("near-limit-part wire=%d", len(h.bytes))
 	case "forged-vote":
 		// every field is what a correct validator OTHER than the sender would put there; only the signature is not that
 		// validator's (absent, made with the sender's key, or that validator's genuine signature over a different vote)
@@ -725,6 +756,33 @@ func runCase(t *rapid.T) {
 		// stays on the network).
 		n.Nodes[signer].Crashed = "silenced: the hostile peer holds this validator's key"
 	}
+	// In a third of the cases the victim writes a REAL write-ahead log (baseWAL over an autofile group in the scratch
+	// directory), like a started node: receiveRoutine logs every peer message BEFORE looking at it, baseWAL.Write panics
+	// when the record cannot be encoded, and what was logged must be readable again when the node restarts.
+	var wal interface {
+		consensus.WAL
+		Stop() error
+	}
+	walPath := ""
+	if rapid.IntRange(0, 2).Draw(t, "realwal") == 0 {
+		walDir := filepath.Join(os.Getenv("VERIF_SCRATCH"), fmt.Sprintf("c16wal-%d-%d", os.Getpid(), atomic.AddInt64(&walCtr, 1)))
+		if os.Getenv("VERIF_SCRATCH") == "" {
+			walDir = filepath.Join(os.TempDir(), filepath.Base(walDir))
+		}
+		walPath = filepath.Join(walDir, "wal")
+		bw, err := consensus.NewWAL(walPath)
+		if err != nil {
+			t.Fatalf("wal: %v", err)
+		}
+		bw.SetLogger(log.NewNopLogger())
+		if err := bw.Start(); err != nil {
+			t.Fatalf("wal start: %v", err)
+		}
+		wal = bw
+		victim.CS.VerifSetWAL(bw)
+		defer func() { bw.Stop(); os.RemoveAll(walDir) }()
+		vstat.Label("victim_with_real_wal")
+	}
 	nmsgs := rapid.IntRange(1, 5).Draw(t, "nmsgs")
 	var trace []string
 	reached := 0
@@ -851,6 +909,31 @@ func runCase(t *rapid.T) {
 				return
 			}
 			vstat.Label("reactor_panic_recovered_per_connection")
+		}
+	}
+	if wal != nil {
+		// a restart must be able to read the log again: every record the node wrote decodes
+		if g, ok := wal.(interface{ Group() *auto.Group }); ok {
+			g.Group().Flush()
+			gr, err := g.Group().NewReader(0)
+			if err == nil {
+				dec := consensus.NewWALDecoder(gr)
+				nrec := 0
+				for {
+					_, derr := dec.Decode()
+					if derr == io.EOF {
+						break
+					}
+					if derr != nil {
+						gr.Close()
+						vstat.Violation(t, P, "wal-unreadable-after-peer-message", "after the peer's messages the node's own write-ahead log cannot be read back (record %d: %v): the node logged a peer message it cannot replay: catchupReplay of this height fails and a restarted node goes on without its own votes and lock of the height\n%s", nrec, derr, strings.Join(trace, "\n"))
+						return
+					}
+					nrec++
+				}
+				gr.Close()
+				vstat.Label("wal_read_back")
+			}
 		}
 	}
 	// afterwards the honest traffic still leads the victim to commit: the others produce one more height, the victim gets
